@@ -92,13 +92,18 @@ impl PrettyPrint {
             .position(|c| !c.is_whitespace())
             .unwrap_or(0);
 
-        // HACK: Use the text line so we have the same tab spacing
+        // HACK: Use the text line so we have the same tab spacing. Only white
+        // space that keeps the cursor on the line is copied: a carriage return
+        // (CRLF files) or a line separator would move the marker elsewhere.
+        let keeps_cursor_on_line = |c: &char| {
+            *c == '\t' || (c.is_whitespace() && !c.is_control() && !matches!(c, '\u{2028}' | '\u{2029}'))
+        };
         let offset = start.saturating_sub(first_non_ws);
         let mut base: String = chars
             .iter()
             .skip(first_non_ws)
             .take(offset)
-            .map(|c| if c.is_whitespace() { *c } else { ' ' })
+            .map(|c| if keeps_cursor_on_line(c) { *c } else { ' ' })
             .collect();
         // The position may lie just behind the end of the line
         for _ in base.chars().count()..offset {
